@@ -123,33 +123,27 @@ package object
 // embedding process' evaluation for good. The same ghost lock state that carries the C09 discipline therefore gives
 // C03 obligations at every Lock / Unlock call of the functions that use a mutex (inventory: scan C03.locks.*).
 //@ external sync.(*RWMutex).Lock
-//@ requires[C09.noreentry] !ghost("lock.w", bool, rw) && !ghost("lock.r", bool, rw)
-//@ requires[C03.lock.noreentry] !ghost("lock.w", bool, rw) && !ghost("lock.r", bool, rw)
+//@ requires[C09,C03.noreentry] !ghost("lock.w", bool, rw) && !ghost("lock.r", bool, rw)
 //@ modifies ghost("lock.w", bool, rw)
 //@ ensures ghost("lock.w", bool, rw)
 //@ external sync.(*RWMutex).Unlock
-//@ requires[C09.held] ghost("lock.w", bool, rw)
-//@ requires[C03.unlock.held] ghost("lock.w", bool, rw)
+//@ requires[C09,C03.held] ghost("lock.w", bool, rw)
 //@ modifies ghost("lock.w", bool, rw)
 //@ ensures !ghost("lock.w", bool, rw)
 //@ external sync.(*RWMutex).RLock
-//@ requires[C09.noreentry] !ghost("lock.w", bool, rw)
-//@ requires[C03.lock.noreentry] !ghost("lock.w", bool, rw)
+//@ requires[C09,C03.noreentry] !ghost("lock.w", bool, rw)
 //@ modifies ghost("lock.r", bool, rw)
 //@ ensures ghost("lock.r", bool, rw)
 //@ external sync.(*RWMutex).RUnlock
-//@ requires[C09.held] ghost("lock.r", bool, rw)
-//@ requires[C03.unlock.held] ghost("lock.r", bool, rw)
+//@ requires[C09,C03.held] ghost("lock.r", bool, rw)
 //@ modifies ghost("lock.r", bool, rw)
 //@ ensures !ghost("lock.r", bool, rw)
 //@ external sync.(*Mutex).Lock
-//@ requires[C09.noreentry] !ghost("lock.w", bool, m)
-//@ requires[C03.lock.noreentry] !ghost("lock.w", bool, m)
+//@ requires[C09,C03.noreentry] !ghost("lock.w", bool, m)
 //@ modifies ghost("lock.w", bool, m)
 //@ ensures ghost("lock.w", bool, m)
 //@ external sync.(*Mutex).Unlock
-//@ requires[C09.held] ghost("lock.w", bool, m)
-//@ requires[C03.unlock.held] ghost("lock.w", bool, m)
+//@ requires[C09,C03.held] ghost("lock.w", bool, m)
 //@ modifies ghost("lock.w", bool, m)
 //@ ensures !ghost("lock.w", bool, m)
 
